@@ -85,7 +85,7 @@ var _ = reserr.ErrAccessDenied
 //@   trusted
 //@   ensures forall x *Subscription :: x.direct == old(x.direct)
 //@   assigns Subscription.state, Subscription.indirectsent, Subscription.indirect, Subscription.readyCallbacks,
-//@       Subscription.eventQueue, Subscription.throttle, Subscription.resourceSub, Subscription.refs, elems(c.subs), pkgstate(rescache)
+//@       Subscription.eventQueue, Subscription.throttle, Subscription.resourceSub, Subscription.refs, elems(c.subs), pkgstate(rescache), funcqueues()
 
 //@ func (*wsConn).addCount
 //@   requires s != nil
@@ -102,6 +102,11 @@ var _ = reserr.ErrAccessDenied
 //@   ensures[C08] old(s.direct + s.indirect + s.indirectsent) != 0 && direct ==> s.direct == old(s.direct) - count
 //@   ensures[C08] !direct ==> s.direct == old(s.direct)
 //@   ensures[C08] forall x *Subscription :: x != s ==> x.direct == old(x.direct)
+//@   ensures !tryDelete ==> (forall x *Subscription :: x.state == old(x.state) && x.resourceSub == old(x.resourceSub) && x.refs == old(x.refs))
+//@   ensures !tryDelete ==> (forall e *rescache.EventSubscription :: e.queue == old(e.queue))
+//@   ensures !tryDelete ==> (forall k *wsConn, r string :: has(k.subs, r) == old(has(k.subs, r)) && k.subs[r] == old(k.subs[r]))
+//@   assigns s.direct, s.indirect, s.indirectsent, Subscription.state, Subscription.indirectsent, Subscription.indirect, Subscription.readyCallbacks,
+//@       Subscription.eventQueue, Subscription.throttle, Subscription.resourceSub, Subscription.refs, elems(c.subs), pkgstate(rescache), funcqueues()
 //@   safety[C15]
 
 // UnsubscribeByRID succeeds exactly when the connection is live, the rid is subscribed and its
@@ -133,6 +138,7 @@ var _ = reserr.ErrAccessDenied
 // Enqueue refuses work once the connection is disposing; otherwise the function is appended to
 // the worker queue, which runs it exactly once.
 //@ func (*wsConn).Enqueue
+//@   defers f
 //@   requires c != nil
 //@   ensures[C11] result == !old(c.disposing)
 //@   ensures[C11] old(c.disposing) ==> c.queue == old(c.queue)
@@ -141,6 +147,8 @@ var _ = reserr.ErrAccessDenied
 //@   safety[C15]
 
 //@ func (*wsConn).Access
+//@   defers cb
+//@   assigns pkgstate(rescache), funcqueues()
 //@   requires predConnOK(c) && s != nil
 //@   resolves[C07] cb exactly-once
 //@   callback cb requires[C04] arg0 != nil && (arg0.Error != nil || arg0.AccessResult != nil)
@@ -154,6 +162,14 @@ var _ = reserr.ErrAccessDenied
 //@   requires t != nil ==> rescache.predThrottleInv(t)
 //@   resolves[C07] cb exactly-once
 //@   callback cb requires[C04] arg0 != nil && (arg0.Error != nil || arg0.AccessResult != nil)
+//@   ensures[C06] old(s.access) == nil ==> predSubsStable() && s.access == nil && s.queueFlag == old(s.queueFlag) &&
+//@       (forall x *Subscription :: x != s ==> x.access == old(x.access) && x.flags == old(x.flags)) &&
+//@       s.flags == old(s.flags) | flagAccessCalled
+//@   safety[C15]
+
+//@ closure (*Subscription).loadAccess#1
+//@   requires s != nil && s.c != nil && predConnOK(s.c.(*wsConn))
+//@   assigns pkgstate(rescache), funcqueues()
 //@   safety[C15]
 
 //@ func (*Subscription).CanGet
@@ -309,6 +325,88 @@ var _ = reserr.ErrAccessDenied
 //@ closure (*wsConn).AuthResource#2
 //@   requires predConnOK(c) && (err != nil ==> reserr.predErrOK(err))
 //@   resolves[C07] cb exactly-once
+
+// --- revocation (C06), disposal (C11) ------------------------------------------------
+
+// wsframes counts the frames written to the client's WebSocket.
+//@ ghost var wsframes int
+
+// What stays untouched while only access bookkeeping of subscriptions changes.
+//@ define predSubsStable() bool = (forall x *Subscription :: x.direct == old(x.direct) && x.state == old(x.state)) &&
+//@     (forall k *wsConn, r string :: has(k.subs, r) == old(has(k.subs, r)) && k.subs[r] == old(k.subs[r])) &&
+//@     (forall k *wsConn :: k.subs == old(k.subs) && k.disposing == old(k.disposing) && k.token == old(k.token) && k.tid == old(k.tid) && k.ws == old(k.ws))
+
+// unsubscribeDirect: with direct subscriptions (and a live connection) all of them are removed
+// in one step and exactly one unsubscribe event frame is written; without, nothing happens.
+//@ func (*Subscription).unsubscribeDirect
+//@   requires s != nil && s.c != nil && predConnOK(s.c.(*wsConn))
+//@   assumes predCountsOK()
+//@   ensures[C06,C08] old(s.direct) > 0 && !old(s.c.(*wsConn).disposing) ==> s.direct == 0
+//@   ensures[C06,C08] old(s.direct) > 0 && old(s.c.(*wsConn).ws) != nil ==> wsframes == old(wsframes) + 1
+//@   ensures[C06,C08] old(s.direct) <= 0 ==> wsframes == old(wsframes) && (forall x *Subscription :: x.direct == old(x.direct))
+//@   assigns wsframes, Subscription.direct, Subscription.state, Subscription.indirectsent, Subscription.indirect, Subscription.readyCallbacks,
+//@       Subscription.eventQueue, Subscription.throttle, Subscription.resourceSub, Subscription.refs, elems(s.c.(*wsConn).subs), pkgstate(rescache), funcqueues()
+//@   safety[C15]
+
+//@ func (*Subscription).validateAccess
+//@   requires s != nil && s.c != nil && predConnOK(s.c.(*wsConn)) && a != nil && (a.Error != nil || a.AccessResult != nil)
+//@   assumes predCountsOK()
+//@   ensures[C06] !old(a.Error == nil && a.Get) && old(s.direct) > 0 && !old(s.c.(*wsConn).disposing) ==> s.direct == 0
+//@   ensures[C06] !old(a.Error == nil && a.Get) && old(s.direct) > 0 && old(s.c.(*wsConn).ws) != nil ==> wsframes == old(wsframes) + 1
+//@   ensures[C06] old(a.Error == nil && a.Get) ==> wsframes == old(wsframes) && (forall x *Subscription :: x.direct == old(x.direct))
+//@   ensures[C06] old(s.direct) <= 0 ==> wsframes == old(wsframes) && (forall x *Subscription :: x.direct == old(x.direct))
+//@   assigns wsframes, Subscription.direct, Subscription.state, Subscription.indirectsent, Subscription.indirect, Subscription.readyCallbacks,
+//@       Subscription.eventQueue, Subscription.throttle, Subscription.resourceSub, Subscription.refs, elems(s.c.(*wsConn).subs), pkgstate(rescache), funcqueues()
+//@   safety[C15]
+
+// handleReaccess: the cached verdict is dropped; with direct subscriptions the event queue is
+// held (queueReasonReaccess) before the single access request is issued.
+//@ func (*Subscription).handleReaccess
+//@   requires s != nil && s.c != nil && predConnOK(s.c.(*wsConn))
+//@   requires t != nil ==> rescache.predThrottleInv(t)
+//@   assumes predCountsOK()
+//@   ensures[C06] s.access == nil && s.flags & flagReaccess == 0
+//@   ensures[C06] old(s.direct) == 0 ==> s.queueFlag == old(s.queueFlag) && s.accessCallbacks == old(s.accessCallbacks)
+//@   ensures[C06] predSubsStable()
+//@   ensures[C06] forall x *Subscription :: x != s ==> x.access == old(x.access) && x.flags == old(x.flags)
+//@   assert[C06] s.loadAccess#1: s.access == nil && s.queueFlag & queueReasonReaccess != 0 && s.direct != 0
+//@   safety[C15]
+//@ closure (*Subscription).handleReaccess#1
+//@   requires s != nil && s.c != nil && predConnOK(s.c.(*wsConn))
+//@   assumes predCountsOK()
+//@   assert[C06] s.unqueueEvents#1: (!(a.Error == nil && a.Get) && !s.c.(*wsConn).disposing) ==> s.direct <= 0
+//@   safety[C15]
+
+//@ func (*Subscription).unqueueEvents
+//@   trusted
+//@   requires s != nil
+
+// reaccess: a disposed subscription ignores it; while the event queue is held the re-access is
+// deferred (flagReaccess) and nothing else changes; otherwise it is handled now.
+//@ func (*Subscription).reaccess
+//@   requires s != nil && s.c != nil && predConnOK(s.c.(*wsConn))
+//@   requires t != nil ==> rescache.predThrottleInv(t)
+//@   assumes predCountsOK()
+//@   ensures[C06] old(s.state) == stateDisposed ==> s.access == old(s.access) && s.flags == old(s.flags) && s.queueFlag == old(s.queueFlag)
+//@   ensures[C06] old(s.state) != stateDisposed && old(s.queueFlag) != 0 ==> s.flags == old(s.flags) | flagReaccess && s.access == old(s.access) && s.queueFlag == old(s.queueFlag)
+//@   ensures[C06,C04] old(s.state) != stateDisposed ==> s.access == nil || s.flags & flagReaccess != 0
+//@   ensures[C06] predSubsStable()
+//@   ensures[C06] forall x *Subscription :: x != s ==> x.access == old(x.access) && x.flags == old(x.flags)
+//@   safety[C15]
+
+// setToken: the token and token id are replaced; if the connection already had a token, every
+// subscription's cached access verdict is dropped or its re-access is pending afterwards.
+//@ func (*wsConn).setToken
+//@   requires predConnOK(c)
+//@   assumes predSubsOK(c)
+//@   ensures[C06,C10] c.tid == tid && c.token == token
+//@   ensures[C06,C04] old(c.token) != nil ==> (forall r string :: has(c.subs, r) && c.subs[r].state != stateDisposed ==>
+//@       c.subs[r].access == nil || c.subs[r].flags & flagReaccess != 0)
+//@   ensures[C06] old(c.token) == nil ==> (forall x *Subscription :: x.access == old(x.access) && x.flags == old(x.flags) && x.queueFlag == old(x.queueFlag))
+//@   safety[C15]
+//@   loop 1 invariant c.tid == tid && c.token == token && old(c.token) != nil && c.subs == old(c.subs)
+//@   loop 1 invariant forall r string :: has(c.subs, r) ==> c.subs[r] != nil && c.subs[r].c == c
+//@   loop 1 invariant forall r string :: visited1[r] && has(c.subs, r) && c.subs[r].state != stateDisposed ==> c.subs[r].access == nil || c.subs[r].flags & flagReaccess != 0
 
 // SpecOriginEq is the executable form of predOriginEq.
 func SpecOriginEq(s, o string) bool {
